@@ -322,6 +322,26 @@ class _RawConfigParser(configparser.RawConfigParser):
     option = option.strip().replace(' ', '').replace('\t', '')
     return option
 
+  def options(self, section):
+    """Return the options defined in `section` itself.
+
+    [Variables] is the configparser default section (this allows ${NAME} interpolation)
+    its keys should not appear as members of the other sections."""
+    if section == self.default_section:
+      return list(self._defaults.keys())
+    try:
+      return list(self._sections[section].keys())
+    except KeyError:
+      raise configparser.NoSectionError(section)
+
+  def has_option(self, section, option):
+    option = self.optionxform(option)
+    if not section or section == self.default_section:
+      return option in self._defaults
+    elif section not in self._sections:
+      return False
+    return option in self._sections[section]
+
 class ConfigParser(object):
   """Performs initial stage (tokenizing) of generating a potential model
   suitable for tabulation functions."""
